@@ -11,6 +11,7 @@ Fixpoint acked_from (up : bool) (h : list hop) : list bulk :=
   | HBulk b :: r => if up then b :: acked_from true r else acked_from false r
   | HCrashIn _ _ _ _ _ :: r => acked_from false r
   | HFault _ _ _ :: r => acked_from up r
+  | HFaultCrash _ _ _ :: r => acked_from false r
   | HPower :: r => acked_from false r
   | HRestart :: r => acked_from true r
   | HRestartCrash :: r => acked_from false r
@@ -21,6 +22,7 @@ Fixpoint tried_from (up : bool) (h : list hop) : list bulk :=
   | HBulk b :: r => tried_from up r
   | HCrashIn b _ _ _ _ :: r => if up then b :: tried_from false r else tried_from false r
   | HFault b _ _ :: r => if up then b :: tried_from true r else tried_from false r
+  | HFaultCrash b _ _ :: r => if up then b :: tried_from false r else tried_from false r
   | HPower :: r => tried_from false r
   | HRestart :: r => tried_from true r
   | HRestartCrash :: r => tried_from false r
@@ -71,13 +73,13 @@ Section WithCodec.
   Qed.
 
   Lemma step_inv : forall s bs o,
-    Inv s bs -> Forall wf_bulk (hop_bulk o) -> is_fault o = false ->
+    Inv s bs -> Forall wf_bulk (hop_bulk o) -> crash_cut_ok o ->
     exists s' ext, step dec_m s o = Ok s' /\ Inv s' (bs ++ ext) /\ incl ext (hop_bulk o).
   Proof.
-    intros s bs o HI Hwo Hnf.
+    intros s bs o HI Hwo Hcc.
     pose proof (inv_disk_form s bs HI) as (tm0 & td0 & Hdisk0 & Htm0).
     destruct HI as (Hwf & Hack & Hsub & Hst).
-    destruct o as [b | b k t kd km | b fm cut | | |]; unfold step; [| | discriminate Hnf | | |].
+    destruct o as [b | b k t kd km | b fm cut | b a c | | |]; unfold step.
     - (* HBulk *)
       destruct (s_proc s) as [p |] eqn:Ep.
       + destruct Hst as (Hd & Hod & Hom & Hix).
@@ -127,6 +129,31 @@ Section WithCodec.
           exists [], []. rewrite !app_nil_r, dfile_snoc, mfile_snoc. split; auto using eof_tail_nil.
       + exists s, []. rewrite app_nil_r. split; auto. split; [| apply incl_nil_l].
         unfold Inv. rewrite Ep. auto.
+    - (* HFault: the failed unit is rolled back *)
+      destruct (s_proc s) as [p |] eqn:Ep.
+      + destruct Hst as (Hd & Hod & Hom & Hix).
+        inversion Hwo as [| ? ? Hb _]; subst.
+        rewrite (do_fault_id (s_disk s) p b fm cut) by (rewrite Hd; cbn [docs meta]; auto).
+        eexists. exists []. split; [reflexivity |]. split; [| apply incl_nil_l].
+        rewrite app_nil_r. unfold Inv. cbn [s_acked s_tried s_proc s_disk].
+        split; auto. split; auto.
+        split; [intros x Hx; apply Hsub in Hx; rewrite app_assoc; apply in_or_app; auto |].
+        auto.
+      + exists s, []. rewrite app_nil_r. split; auto. split; [| apply incl_nil_l].
+        unfold Inv. rewrite Ep. auto.
+    - (* HFaultCrash: the process dies inside the failed unit or its rollback *)
+      destruct (s_proc s) as [p |] eqn:Ep.
+      + destruct Hst as (Hd & Hod & Hom & Hix).
+        eexists. exists []. split; [reflexivity |]. split; [| apply incl_nil_l].
+        rewrite app_nil_r. unfold Inv, fault_crash. cbn [s_acked s_tried s_proc s_disk].
+        split; auto. split; auto.
+        split; [intros x Hx; apply Hsub in Hx; rewrite app_assoc; apply in_or_app; auto |].
+        rewrite Hd. cbn [docs meta].
+        exists (firstn c (mblock b (off_d p))), (firstn a (dblock b)). split; auto.
+        unfold mblock. apply eof_tail_prefix. fold (mblock b (off_d p)).
+        cbn [crash_cut_ok] in Hcc. rewrite mblock_length in *. exact Hcc.
+      + exists s, []. rewrite app_nil_r. split; auto. split; [| apply incl_nil_l].
+        unfold Inv. rewrite Ep. auto.
     - (* HPower *)
       destruct (s_proc s) as [p |] eqn:Ep.
       + eexists. exists []. split; [reflexivity |]. split; [| apply incl_nil_l].
@@ -148,7 +175,7 @@ Section WithCodec.
   Qed.
 
   Lemma run_inv : forall h s bs,
-    Inv s bs -> Forall wf_bulk (hist_bulks h) -> fault_free h ->
+    Inv s bs -> Forall wf_bulk (hist_bulks h) -> Forall crash_cut_ok h ->
     exists s' ext, run_from dec_m s h = Ok s' /\ Inv s' (bs ++ ext) /\ incl ext (hist_bulks h).
   Proof.
     induction h as [| o r IH]; intros s bs HI Hwf Hff.
@@ -170,7 +197,7 @@ Section WithCodec.
                | HBulk _ => is_up s | HFault _ _ _ => is_up s | HRestart => true | _ => false end.
   Proof.
     intros s o s' H. unfold step, is_up in *.
-    destruct o as [b | b k t kd km | b fm cut | | |]; destruct (s_proc s) as [p |] eqn:Ep; cbn.
+    destruct o as [b | b k t kd km | b fm cut | b a c | | |]; destruct (s_proc s) as [p |] eqn:Ep; cbn.
     - destruct (do_bulk dec_m (s_disk s) p b) as [[d' p'] | |]; inversion H; subst; cbn.
       rewrite app_nil_r. auto.
     - inversion H; subst. rewrite Ep, !app_nil_r. auto.
@@ -178,6 +205,8 @@ Section WithCodec.
     - inversion H; subst. rewrite Ep, !app_nil_r. auto.
     - destruct (do_fault (s_disk s) p b fm cut) as [d' p']. inversion H; subst; cbn.
       rewrite app_nil_r. auto.
+    - inversion H; subst. rewrite Ep, !app_nil_r. auto.
+    - inversion H; subst; cbn. rewrite app_nil_r. auto.
     - inversion H; subst. rewrite Ep, !app_nil_r. auto.
     - inversion H; subst; cbn. rewrite !app_nil_r. auto.
     - inversion H; subst. rewrite Ep, !app_nil_r. auto.
